@@ -59,9 +59,9 @@ pub fn is_matrix(m: &[f64], nrows: usize) -> Result<usize, String> {
 /// Checks whether a 1D array is a valid square matrix.
 #[inline(always)]
 pub fn is_square(m: &[f64]) -> Result<usize, String> {
-    let n = (m.len() as f32).sqrt();
-    if n % 1. == 0. {
-        Ok(n as usize)
+    let n = (m.len() as f64).sqrt().round() as usize;
+    if n.checked_mul(n) == Some(m.len()) {
+        Ok(n)
     } else {
         Err("Matrix not square".to_string())
     }
